@@ -351,6 +351,57 @@ impl<E: Engine> RateDecoder<E> for DefaultRateDecoder<E> {
 }
 
 // ======================================================================
+// VERIFICATION HOOKS
+
+/// Verification hook: the private rate-selection rule.
+#[cfg(feature = "verif-hooks")]
+pub fn verif_use_high_rate(original_count: usize, recovery_count: usize) -> Result<bool, Error> {
+    use_high_rate(original_count, recovery_count)
+}
+
+#[cfg(feature = "verif-hooks")]
+impl<E: Engine> DefaultRateEncoder<E> {
+    /// Verification hook: which inner encoder is in use.
+    pub fn verif_rate(&self) -> crate::verif::InnerRate {
+        match &self.0 {
+            InnerEncoder::High(_) => crate::verif::InnerRate::High,
+            InnerEncoder::Low(_) => crate::verif::InnerRate::Low,
+            InnerEncoder::None => crate::verif::InnerRate::None,
+        }
+    }
+
+    /// Verification hook: the working space of the inner encoder.
+    pub fn verif_work(&self) -> Option<&EncoderWork> {
+        match &self.0 {
+            InnerEncoder::High(high) => Some(high.verif_work()),
+            InnerEncoder::Low(low) => Some(low.verif_work()),
+            InnerEncoder::None => None,
+        }
+    }
+}
+
+#[cfg(feature = "verif-hooks")]
+impl<E: Engine> DefaultRateDecoder<E> {
+    /// Verification hook: which inner decoder is in use.
+    pub fn verif_rate(&self) -> crate::verif::InnerRate {
+        match &self.0 {
+            InnerDecoder::High(_) => crate::verif::InnerRate::High,
+            InnerDecoder::Low(_) => crate::verif::InnerRate::Low,
+            InnerDecoder::None => crate::verif::InnerRate::None,
+        }
+    }
+
+    /// Verification hook: the working space of the inner decoder.
+    pub fn verif_work(&self) -> Option<&DecoderWork> {
+        match &self.0 {
+            InnerDecoder::High(high) => Some(high.verif_work()),
+            InnerDecoder::Low(low) => Some(low.verif_work()),
+            InnerDecoder::None => None,
+        }
+    }
+}
+
+// ======================================================================
 // TESTS
 
 #[cfg(test)]
